@@ -91,7 +91,6 @@ func (e *Engine) writeHeaderMap(w iface, m *mapV) bool {
 func (e *Engine) setupHTTPModel() {
 	x := e.ext
 	respT := func() types.Type { return e.namedType("net/http", "Response") }
-	x["bufio.NewReader"] = func(e *Engine, fr *frame, a []value) value { return &readerBox{a[0].(iface)} }
 
 	x["(*net/http.Response).Write"] = func(e *Engine, fr *frame, a []value) value {
 		rp := a[0].(*value)
@@ -182,7 +181,7 @@ func (e *Engine) setupHTTPModel() {
 	}
 
 	x["net/http.ReadResponse"] = func(e *Engine, fr *frame, a []value) value {
-		rd := a[0].(*readerBox).r
+		rd := e.readerArg(a[0])
 		errT := types.Universe.Lookup("error").Type()
 		bad := func(msg string) value {
 			return tuple{(*value)(nil), e.callFn(e.fn("errors", "New"), []value{constStrV("M-http-wire: " + msg)})}
@@ -298,15 +297,6 @@ func (e *Engine) setupHTTPModel() {
 		if !ok {
 			return bad("short trailers")
 		}
-		for i, k := range tvals.keys {
-			_, _, j := e.mapLookup(trailer, k)
-			if j >= 0 {
-				trailer.vals[j] = tvals.vals[i]
-			} else {
-				trailer.keys = append(trailer.keys, k)
-				trailer.vals = append(trailer.vals, tvals.vals[i])
-			}
-		}
 		rt := respT()
 		resp := zero(rt).(structV)
 		resp[structField(rt, "StatusCode")] = status
@@ -314,8 +304,27 @@ func (e *Engine) setupHTTPModel() {
 		resp[structField(rt, "Trailer")] = trailer
 		bb := &bytesV{arr: &byteArr{b: body}, n: BV(64, uint64(len(body))), cap: len(body)}
 		rdr := e.callFn(e.fn("bytes", "NewReader"), []value{bb})
-		rc := e.callFn(e.fn("io", "NopCloser"), []value{iface{t: types.NewPointer(e.namedType("bytes", "Reader")), v: rdr}})
-		resp[structField(rt, "Body")] = rc
+		// trailer values (and unannounced trailers) appear in resp.Trailer when the
+		// body reports EOF, not before - as with net/http
+		publish := &nativeFn{name: "M-http-wire: publish trailers", f: func(e *Engine, args []value) value {
+			for i, k := range tvals.keys {
+				_, _, j := e.mapLookup(trailer, k)
+				if j >= 0 {
+					trailer.vals[j] = tvals.vals[i]
+				} else {
+					trailer.keys = append(trailer.keys, k)
+					trailer.vals = append(trailer.vals, tvals.vals[i])
+				}
+			}
+			return nil
+		}}
+		ebT := e.namedType(rtPkg, "EOFBody")
+		eb := zero(ebT).(structV)
+		eb[structField(ebT, "R")] = iface{t: types.NewPointer(e.namedType("bytes", "Reader")), v: rdr}
+		eb[structField(ebT, "AtEOF")] = publish
+		ebp := new(value)
+		*ebp = eb
+		resp[structField(rt, "Body")] = iface{t: types.NewPointer(ebT), v: ebp}
 		p := new(value)
 		*p = resp
 		return tuple{p, zero(errT)}
@@ -442,9 +451,9 @@ func (e *Engine) setupHTTPRequestModel() {
 	}
 
 	x["net/http.ReadRequest"] = func(e *Engine, fr *frame, a []value) value {
-		rd := a[0].(*readerBox).r
+		rd := e.readerArg(a[0])
 		bad := func(msg string) value { return tuple{(*value)(nil), e.newErr("M-http-wire: " + msg)} }
-		p := &wireReader{e: e, rd: rd}
+		p := &wireReader{e: e, rd: rd, exact: true}
 		method, ok := p.takeStr()
 		if !ok {
 			return bad("short method")
@@ -461,21 +470,6 @@ func (e *Engine) setupHTTPRequestModel() {
 		if !ok {
 			return bad("short header")
 		}
-		var body []*Term
-		for {
-			n, ok := p.takeLen()
-			if !ok {
-				return bad("short body")
-			}
-			if n == 0 {
-				break
-			}
-			b, ok := p.take(n)
-			if !ok {
-				return bad("short chunk")
-			}
-			body = append(body, b...)
-		}
 		pu := e.callFn(e.fn("net/url", "ParseRequestURI"), []value{uri}).(tuple)
 		if pu[1].(iface).t != nil {
 			return tuple{(*value)(nil), pu[1]}
@@ -490,10 +484,14 @@ func (e *Engine) setupHTTPRequestModel() {
 		req[structField(rt, "ProtoMinor")] = BV(64, 1)
 		req[structField(rt, "Header")] = header
 		req[structField(rt, "Host")] = host
-		req[structField(rt, "ContentLength")] = BV(64, uint64(len(body)))
-		bb := &bytesV{arr: &byteArr{b: body}, n: BV(64, uint64(len(body))), cap: len(body)}
-		rdr := e.callFn(e.fn("bytes", "NewReader"), []value{bb})
-		req[structField(rt, "Body")] = e.callFn(e.fn("io", "NopCloser"), []value{iface{t: types.NewPointer(e.namedType("bytes", "Reader")), v: rdr}})
+		// the body is decoded lazily from the same reader
+		req[structField(rt, "ContentLength")] = BV(64, ^uint64(0))
+		wbT := e.namedType(rtPkg, "WireBody")
+		wb := zero(wbT).(structV)
+		wb[structField(wbT, "R")] = rd
+		wbp := new(value)
+		*wbp = wb
+		req[structField(rt, "Body")] = iface{t: types.NewPointer(wbT), v: wbp}
 		rp := new(value)
 		*rp = req
 		return tuple{rp, e.errNil()}
@@ -506,14 +504,19 @@ type wireReader struct {
 	rd      iface
 	pending []*Term
 	ended   bool
+	exact   bool
 }
 
 func (p *wireReader) fill(n int) bool {
 	e := p.e
 	for len(p.pending) < n && !p.ended {
-		buf := concreteBytes(make([]byte, 64))
+		want := 64
+		if p.exact {
+			want = n - len(p.pending) // never read past what was asked for
+		}
+		buf := concreteBytes(make([]byte, want))
 		r := e.callMethod(p.rd, "Read", buf).(tuple)
-		k := e.concretize(r[0].(*Term), 0, 64)
+		k := e.concretize(r[0].(*Term), 0, want)
 		p.pending = append(p.pending, buf.arr.b[:k]...)
 		if r[1].(iface).t != nil {
 			p.ended = true
@@ -578,4 +581,13 @@ func (p *wireReader) readMap() (*mapV, bool) {
 		m.vals = append(m.vals, &sliceV{arr: &vals, len: nv, cap: nv})
 	}
 	return m, true
+}
+
+// readerArg: the *bufio.Reader handed to ReadRequest / ReadResponse, as an
+// io.Reader (the real bufio.Reader code is interpreted).
+func (e *Engine) readerArg(v value) iface {
+	if rb, ok := v.(*readerBox); ok {
+		return rb.r
+	}
+	return iface{t: types.NewPointer(e.namedType("bufio", "Reader")), v: v}
 }
